@@ -3,6 +3,9 @@ CONSTANTS N = 4
  Provides = FALSE
  Upper = FALSE
  EmitMode = "all"
+ Siblings = FALSE
+ MinHidden = 0
+ Focus = "all"
  SliceK = 1
  SliceI = 0
 SPECIFICATION SpecQ
